@@ -68,7 +68,18 @@ func runSeeds(seeds []Seed, repo string, onlyRules map[string]bool) []SeedResult
 	{
 		ruleSet := map[string]bool{}
 		for _, sd := range seeds {
-			for _, rl := range sd.Rules {
+			srules := sd.Rules
+			if len(srules) == 1 && srules[0] == "all" {
+				srules = nil
+				if onlyRules != nil && len(onlyRules) > 0 {
+					for r := range onlyRules {
+						srules = append(srules, r)
+					}
+				} else {
+					srules = allRuleIDs()
+				}
+			}
+			for _, rl := range srules {
 				if onlyRules == nil || len(onlyRules) == 0 || onlyRules[rl] {
 					ruleSet[rl] = true
 				}
@@ -99,7 +110,20 @@ func runSeeds(seeds []Seed, repo string, onlyRules map[string]bool) []SeedResult
 	sem := make(chan struct{}, 8)
 	for i, sd := range seeds {
 		rules := sd.Rules
-		if onlyRules != nil {
+		if len(rules) == 1 && rules[0] == "all" {
+			// a behaviour-preserving seed checked against every rule of this run
+			rules = nil
+			if onlyRules != nil && len(onlyRules) > 0 {
+				for r := range onlyRules {
+					rules = append(rules, r)
+				}
+			} else {
+				for _, r := range allRuleIDs() {
+					rules = append(rules, r)
+				}
+			}
+			sort.Strings(rules)
+		} else if onlyRules != nil {
 			var keep []string
 			for _, r := range rules {
 				if onlyRules[r] {
@@ -235,4 +259,13 @@ func runSelftest(seedsPath, repo, verif, prop, rulesF string) int {
 		return 1
 	}
 	return 0
+}
+
+func allRuleIDs() []string {
+	var out []string
+	for id := range ruleTable {
+		out = append(out, id)
+	}
+	sort.Strings(out)
+	return out
 }
